@@ -19,7 +19,7 @@ BINARY_LANG = {
     "get_difference": "(ref_difference {A} {B})",
 }
 OPERATOR_FORM = {"get_intersection": "and", "get_difference": "sub", "get_complement": "neg", "reverse": "invert"}
-QUERIES = {"is_empty": "is_empty {A}", "is_deterministic": "is_deterministic {A}"}
+QUERIES = {"is_empty": "is_empty {A}", "is_deterministic": "is_deterministic {A}", "is_acyclic": "is_acyclic {A}"}
 
 
 def words_of(case):
@@ -52,6 +52,9 @@ def impl_case(case):
         return {"out": falib.extract_fa(res), "operands_unchanged": before == after}
     if op in QUERIES:
         return {"bool": bool(getattr(fa, op)())}
+    if op == "get_accepted_words":
+        ws = [[falib._val(x) for x in w] for w in fa.get_accepted_words(case["n"])]
+        return {"words": ws}
     if op == "minimize_pair":
         fb = falib.build_fa(case["fb"])
         ma, mb = fa.minimize(), fb.minimize()
@@ -119,6 +122,9 @@ def coq_expr(case, obs):
         return "(judge_opt %s %s, true)" % (BINARY_LANG[op].format(A=A, B=B), R)
     if op in QUERIES:
         return QUERIES[op].format(A=A)
+    if op == "get_accepted_words":
+        n = case["n"]
+        return "(accepted_words FUEL %s %s)" % (A, "None" if n is None else "(Some %d%%nat)" % n)
     if op == "minimize_pair":
         if "out" not in obs:
             return None
@@ -136,7 +142,7 @@ def judge_case(ctx, case, obs, mv):
     """mv = parsed model value (None if nothing was evaluated)."""
     op = case["op"]
     if "timeout" in obs:
-        ctx.fail(op + "-timeout", case, {"impl": "timeout"})
+        ctx.fail(op + "-timeout", case, {"impl": "timeout", "model": str(mv)[:200]})
         return
     if "exc" in obs:
         ctx.fail(op + "-exception", case, {"impl": obs})
@@ -166,6 +172,20 @@ def judge_case(ctx, case, obs, mv):
             ctx.fail(op + "-shape", case, {"impl_out": obs["out"], "is_deterministic()": False})
         elif obs.get("operands_unchanged") is False:
             ctx.fail(op + "-mutates-operand", case, {})
+        return
+    if op == "get_accepted_words":
+        if mv is None:
+            return
+        si = falib.Interner()
+        falib.coq_enfa(case["fa"], si)     # same interning as coq_expr
+        want = sorted(tuple(w) for w in mv[1])
+        got = sorted(tuple(si(a) for a in w) for w in obs["words"])
+        if want != got:
+            missing = [w for w in want if w not in got]
+            extra = [w for w in got if w not in want]
+            dup = len(got) != len(set(got))
+            ctx.fail("get_accepted_words", case, {"missing_interned": missing[:3], "extra_interned": extra[:3], "duplicates": dup,
+                                                  "hashseed": obs.get("_hs")})
         return
     if op == "minimize_pair":
         eq, j1, j2, red1, red2 = mv
